@@ -195,7 +195,16 @@ def gen_workload(rng: SimRng, tier: str) -> dict:  # noqa: ARG001
     r = rng("workload")
     kind = rng.weighted("workload", [("parallelise", 6), ("scan_time_course", 2), ("scan_steady_state", 1), ("mc_time_course", 1), ("scan_protocol", 1)])
     n = r.randint(1, 5)
-    keystyle = r.choice(["int", "str", "tuple", "int", "mixed", "int", "str", "tuple", "int", "mixed", "collide"])
+    keystyle = r.choice(["int", "str", "tuple", "int", "mixed", "near", "str", "tuple", "int", "near", "collide"])
+    # families of DISTINCT keys that differ only in punctuation / whitespace / sign / case / grouping
+    near_pool = r.choice([
+        ["a b", "a_b", "a-b", "a.b", "A b", "a  b"],
+        [[1.0, -2.0], [1.0, 2.0], [-1.0, 2.0], [1, 2.0], [12, 0.0]],
+        [1.5, -1.5, 15, "1.5", [1, 5]],
+        [[1, 5.3], [1.5, 3], [15, 3], [1, 53]],
+        ["k=1", "k 1", "k:1", "k1", "K=1"],
+    ])
+    r.shuffle(near_pool)
     ops = []
     used = set()
     for i in range(n):
@@ -205,6 +214,8 @@ def gen_workload(rng: SimRng, tier: str) -> dict:  # noqa: ARG001
             k = r.choice(["a", "b", "run 1", "x.y", "k=1", "é"]) + str(i)
         elif keystyle == "tuple":
             k = [r.randint(0, 2), i]
+        elif keystyle == "near":
+            k = near_pool[i % len(near_pool)] if i < len(near_pool) else f"n{i}"
         elif keystyle == "collide":
             # distinct keys whose str() coincide (1 and "1"): its own sub-check
             k = (i // 2) if i % 2 == 0 else str(i // 2)
